@@ -116,9 +116,12 @@ def strategies(tier: str) -> list[Any]:
 def check_case(case: dict[str, Any]) -> tuple[dict[str, Any], list[Any]]:
     term, retries = case["wait"], case["retries"]
     pol = retry_policy(wait=build(term), stop=stop_after_attempt(retries + 1))
-    obs = run_failing(pol, lambda i: RuntimeError(f"fail{i}"), dur=case.get("dur", 0.25))
+    obs = run_failing(pol, lambda i: RuntimeError(f"fail{i}"), dur=case.get("dur", 0.25),
+                      busy_block=case.get("busy_block", 0.0), max_actions=400)
     v = []
     w = {"strategy": shape(term)}
+    if case.get("busy_block"):
+        w["retry_queued_behind_busy_worker"] = True
     if obs.stuck or obs.capped or len(obs.attempts) != retries + 1:
         v.append(("retry_count", w, f"{case}: {len(obs.attempts)} executions, expected {retries + 1} "
                                      f"(stuck={obs.stuck} capped={obs.capped})"))
@@ -148,6 +151,11 @@ RULE = ("every listed wait strategy instance (fixed, exponential incl. exp_base<
 
 def run(tier: str, seed: int) -> CheckResult:
     cs = [{"wait": t, "retries": r} for t in strategies(tier) for r in ((1, 2, 4) if tier == "quick" else (1, 2, 3, 4, 6))]
+    # the retry comes due while the step's only worker is busy (it waits in the step queue): the *next* delay must
+    # still be the documented one for that retry number.  The blocker holds the worker for 0.75 s, shorter than most
+    # delays of the growing strategies, so later gaps are decided by the strategy again.
+    cs += [{"wait": t, "retries": r, "busy_block": bb} for t in strategies(tier) for r in (3,) + (() if tier == "quick" else (5,))
+           for bb in (0.75, 250.0)]
     res = CheckResult(PID, RULE)
     with mp.get_context("fork").Pool(16) as pool:
         results = pool.map(_work, cs, chunksize=8)
